@@ -1,9 +1,9 @@
 (* Properties_C17.v -- C17: matrix adapters preserve the operator; input row order does
-   not matter.  Statements only; proofs: AdaptersProofs.v, AdaptersProofs2.v, AdaptersProofs3.v.
+   not matter.  Statements only; proofs: AdaptersProofs.v, AdaptersProofs2.v, AdaptersProofs3.v, AdaptersProofs4.v.
    "any S": for every Scalar record (hence floats); "ring": every commutative ring. *)
 From Coq Require Import Permutation.
 From Amgcl Require Import Scalar QcInst Vec Crs Kernels KernelsProofs MatOps Adapters AdaptersProofs AdaptersProofs2.
-From Amgcl Require Import Relax Ilu Amg AdaptersProofs3 Own.
+From Amgcl Require Import Relax Ilu Amg AdaptersProofs3 AdaptersProofs4 Own.
 Local Open Scope S_scope.
 
 (* --- A1: adapters are views (any S) --- *)
@@ -229,10 +229,13 @@ Theorem C17_shuffled_listing_rows_perm (S : Scalar) (M M' : crs S) :
 Proof. exact (shuffled_listing_rows_perm M M'). Qed.
 Print Assumptions C17_shuffled_listing_rows_perm.
 
-(* --- A3, negative: make_block_solver hands the USER listing to adapter::block_matrix
-   (make_block_solver.hpp:53-60), whose merge assumes sorted rows: two listings of one matrix give
-   two different block matrices (entry a of scalar column 0 lands in block column 1).  Replayed on the
-   implementation by tools/props/C17.py (kinds mbs_*; finding C17-make_block_solver-unsorted-rows). --- *)
+(* --- A3, negative, HISTORICAL: until /repo a433813 make_block_solver handed the USER listing to
+   adapter::block_matrix, whose merge assumes sorted rows: two listings of one matrix give two different
+   block matrices (entry a of scalar column 0 lands in block column 1).  [block_solver_entry] is the model of
+   that OLD entry point; it was replayed on the implementation by tools/props/C17.py (kinds mbs_*; finding
+   C17-make_block_solver-unsorted-rows, status fixed).  The repaired entry point is
+   [block_solver_entry_sorted] below (the theorems C17_block_solver_entry_sorted_...); this theorem stays as the record
+   of why the sort is needed (the block adapter itself is unchanged and still order sensitive). --- *)
 Theorem C17_block_solver_entry_order_dependent_refuted (S : Scalar) (a c d : S) :
   rows_perm (bs_shuffled a c d) (bs_sorted a c d) /\ distinct_cols (bs_shuffled a c d) /\
   block_solver_entry 2 (fun G => G) (crs_view (bs_sorted a c d))
@@ -265,3 +268,109 @@ Example C17_zero_copy_borrow_nonvacuous :
   Own.find 1 (Own.run [Own.NewOwn 0]) = None /\ Own.ufree w2 = 0 /\ Own.leaks (Own.destroy_all w2) = 0 /\
   Own.leaks w2 = 2.
 Proof. vm_compute. repeat split. Qed.
+
+(* ================================================================ round 2b *)
+
+(* --- A3, entry points that accept a user matrix AFTER construction (seeded change C17-2) --- *)
+
+(* amg::rebuild(const Matrix &M) (amg.hpp:238-247: copy, sort_rows, rebuild(shared_ptr)) is the sorting entry
+   point composed with the model's rebuild (Amg.rebuild_levels, the non-sorting shared_ptr overload) ... *)
+Theorem C17_amg_rebuild_entry_sorts (S : Scalar) (cop : crs S -> crs S -> crs S -> crs S) (ls : list ldesc)
+  (A : adapter S) :
+  amg_rebuild cop ls (to_crs A) = sorting_entry (rebuild_levels cop ls) A.
+Proof. exact (amg_rebuild_entry_sorts cop ls A). Qed.
+Print Assumptions C17_amg_rebuild_entry_sorts.
+
+(* ... hence the rebuilt hierarchy does not depend on the order in which the user listed the entries (also
+   through make_solver::precond().rebuild and runtime::preconditioner::rebuild, which forward the matrix:
+   C17_forwarding_entry_order_independent) *)
+Theorem C17_amg_rebuild_entry_order_independent (S : Scalar) (cop : crs S -> crs S -> crs S -> crs S)
+  (ls : list ldesc) (A B : adapter S) :
+  rows_perm (to_crs A) (to_crs B) -> distinct_cols (to_crs A) ->
+  amg_rebuild cop ls (to_crs A) = amg_rebuild cop ls (to_crs B).
+Proof. exact (amg_rebuild_entry_order_independent cop ls A B). Qed.
+Print Assumptions C17_amg_rebuild_entry_order_independent.
+
+(* it is what the non-sorting overload builds from the SORTED matrix *)
+Theorem C17_amg_rebuild_entry_is_sorted_input (S : Scalar) (cop : crs S -> crs S -> crs S -> crs S)
+  (ls : list ldesc) (A B : adapter S) :
+  rows_perm (to_crs A) (to_crs B) -> distinct_cols (to_crs A) ->
+  amg_rebuild cop ls (to_crs A) = rebuild_levels cop ls (sort_rows (to_crs B)).
+Proof. exact (amg_rebuild_entry_is_sorted_input cop ls A B). Qed.
+Print Assumptions C17_amg_rebuild_entry_is_sorted_input.
+
+(* a rebuild after a rebuild: only the last matrix counts, in any listing *)
+Theorem C17_amg_rebuild_chain_order_independent (S : Scalar) (cop : crs S -> crs S -> crs S -> crs S)
+  (ls : list ldesc) (A1 A B : adapter S) :
+  rows_perm (to_crs A) (to_crs B) -> distinct_cols (to_crs A) ->
+  amg_rebuild cop (amg_rebuild cop ls (to_crs A1)) (to_crs A) = amg_rebuild cop ls (to_crs B).
+Proof. exact (amg_rebuild_chain_order_independent cop ls A1 A B). Qed.
+Print Assumptions C17_amg_rebuild_chain_order_independent.
+
+(* cpr / cpr_drs ::partial_update(K, update_transfer_ops): new global preconditioner and (optionally) new
+   transfer operator, both computed from the sorted copy *)
+Theorem C17_partial_update_entry_order_independent (S : Scalar) (Y Z : Type) (sprecond : crs S -> Y)
+  (transfer : crs S -> Z) (upd : bool) (old : Z) (A B : adapter S) :
+  rows_perm (to_crs A) (to_crs B) -> distinct_cols (to_crs A) ->
+  partial_update_entry sprecond transfer upd old A = partial_update_entry sprecond transfer upd old B.
+Proof. exact (partial_update_entry_order_independent sprecond transfer upd old A B). Qed.
+Print Assumptions C17_partial_update_entry_order_independent.
+
+(* negative (the model of seeded change C17-2): the non-sorting overload applied to the user's listing sets
+   the smoother of level 0 up on that listing; on the tridiagonal witness the ILU(0) row scan throws for one
+   listing and eliminates column 0 for the other, while the sorting entry point gives ONE hierarchy *)
+Theorem C17_amg_rebuild_unsorted_listing_refuted (S : Scalar) (cop : crs S -> crs S -> crs S -> crs S) (v : S)
+  (l0 : ldesc) :
+  let ls := [LLast (rb_sorted v)] in
+  rows_perm (rb_shuffled v) (rb_sorted v) /\ distinct_cols (rb_shuffled v) /\
+  ilu0_scan 1 (nth 1 (rows (ld_A (hd l0 (rebuild_levels cop ls (rb_shuffled v))))) []) = ScanThrow /\
+  ilu0_scan 1 (nth 1 (rows (ld_A (hd l0 (rebuild_levels cop ls (rb_sorted v))))) []) = ScanElim [0%nat] /\
+  amg_rebuild cop ls (to_crs (crs_view (rb_shuffled v))) = amg_rebuild cop ls (to_crs (crs_view (rb_sorted v))).
+Proof. exact (amg_rebuild_unsorted_listing_refuted cop v l0). Qed.
+Print Assumptions C17_amg_rebuild_unsorted_listing_refuted.
+
+(* --- A3, make_block_solver after the repair a433813: sort a copy, THEN the block adapter --- *)
+Theorem C17_block_solver_entry_sorted_is_sorting_entry (S : Scalar) (Y : Type) (b : nat)
+  (build : gcrs (@Adapters.block S) -> Y) (A : adapter S) :
+  block_solver_entry_sorted b build A
+  = sorting_entry (fun M => build (to_gcrs (block_adapter b (crs_view M)))) A.
+Proof. exact (block_solver_entry_sorted_is_sorting_entry b build A). Qed.
+Print Assumptions C17_block_solver_entry_sorted_is_sorting_entry.
+
+Theorem C17_block_solver_entry_sorted_order_independent (S : Scalar) (Y : Type) (b : nat)
+  (build : gcrs (@Adapters.block S) -> Y) (A B : adapter S) :
+  rows_perm (to_crs A) (to_crs B) -> distinct_cols (to_crs A) ->
+  block_solver_entry_sorted b build A = block_solver_entry_sorted b build B.
+Proof. exact (block_solver_entry_sorted_order_independent b build A B). Qed.
+Print Assumptions C17_block_solver_entry_sorted_order_independent.
+
+(* the witness of C17_block_solver_entry_order_dependent_refuted through the repaired entry point *)
+Theorem C17_block_solver_entry_sorted_witness (S : Scalar) (a c d : S) :
+  block_solver_entry_sorted 2 (fun G => G) (crs_view (bs_shuffled a c d))
+    = mkG 2 [[(0, [[a; s0]; [s0; d]]); (1, [[s0; c]; [s0; s0]])]]%nat /\
+  block_solver_entry_sorted 2 (fun G => G) (crs_view (bs_sorted a c d))
+    = mkG 2 [[(0, [[a; s0]; [s0; d]]); (1, [[s0; c]; [s0; s0]])]]%nat.
+Proof. exact (block_solver_entry_sorted_witness a c d). Qed.
+Print Assumptions C17_block_solver_entry_sorted_witness.
+
+(* the repaired entry point establishes the precondition of the block adapter's theorems (C13) by itself:
+   sorting rows with distinct columns gives strictly sorted rows, so the block matrix handed to the inner
+   solver has, entry for entry, the dense operator of the user's matrix in ANY listing (ring) *)
+Theorem C17_sort_rows_strict (S : Scalar) (A : crs S) :
+  distinct_cols A -> Forall (fun r => sorted_strict r = true) (rows (sort_rows A)).
+Proof. exact (sort_rows_strict A). Qed.
+Print Assumptions C17_sort_rows_strict.
+
+Theorem C17_block_solver_entry_sorted_dense (S : Scalar) (Srt : Sring S) (b : nat) (A : adapter S) i j :
+  0 < b -> nrows (to_crs A) mod b = 0 -> ncols (to_crs A) mod b = 0 -> distinct_cols (to_crs A) ->
+  i < nrows (to_crs A) -> j < ncols (to_crs A) ->
+  mget (unblock b (block_solver_entry_sorted b (fun G => G) A)) i j = mget (to_crs A) i j.
+Proof. exact (block_solver_entry_sorted_dense Srt b A i j). Qed.
+Print Assumptions C17_block_solver_entry_sorted_dense.
+
+Theorem C17_block_solver_entry_sorted_dense_Qc (b : nat) (A : adapter QcS) i j :
+  0 < b -> nrows (to_crs A) mod b = 0 -> ncols (to_crs A) mod b = 0 -> distinct_cols (to_crs A) ->
+  i < nrows (to_crs A) -> j < ncols (to_crs A) ->
+  mget (unblock b (block_solver_entry_sorted b (fun G => G) A)) i j = mget (to_crs A) i j.
+Proof. exact (C17_block_solver_entry_sorted_dense QcS QcS_ring b A i j). Qed.
+Print Assumptions C17_block_solver_entry_sorted_dense_Qc.
